@@ -171,8 +171,15 @@ func Harness_C09_flow() {
 func Harness_C01_trust() {
 	r := &spFlowRun{}
 	r.sp = verifSP("sp")
-	mode := verifChoose("trust.mode", 3)
+	mode := verifChoose("trust.mode", 4)
 	switch mode {
+	case 3:
+		// metadata with two signing certificates (key rollover): both (0,0) and (0,2) are trusted, (0,1) is not
+		d := &r.sp.IDPMetadata.IDPSSODescriptors[0]
+		d.KeyDescriptors = append(d.KeyDescriptors, KeyDescriptor{
+			Use:     "signing",
+			KeyInfo: KeyInfo{X509Data: X509Data{X509Certificates: []X509Certificate{{Data: verifTestCertB64(0, 2)}}}},
+		})
 	case 1:
 		alg := "http://www.w3.org/2001/04/xmlenc#sha256"
 		fp, err := fingerprint(verifTestCert(0, 0), alg)
@@ -213,6 +220,9 @@ func Harness_C01_trust() {
 	}
 	if mode == 2 {
 		verifReach("accepted-by-pinned-certificate")
+	}
+	if mode == 3 {
+		verifReach("accepted-with-two-signing-certificates")
 	}
 	verifAssert(r.a != nil && len(r.d.Assertions) == 1, "C01/trust/returned-assertion-is-from-the-document")
 	if r.a == nil || len(r.d.Assertions) != 1 {
